@@ -214,6 +214,7 @@ func Random(r *rand.Rand, ft Features) *cat.Catalog {
 		f.Enc.Variadic = pick(r, 0.1)
 		f.Enc.ErrFirst = pick(r, 0.2)
 		f.Enc.RNest = pick(r, 0.25)
+		f.Enc.NilRes = pick(r, 0.12)
 		if pick(r, 0.25) {
 			f.Enc.Nest = 1 + r.Intn(2)
 		}
